@@ -171,3 +171,8 @@ package f3
 
 //@ structural nocallers (*equivocationFilter).ProcessReceive : every recorded slot originates from this node, which is what makes the recorded signature the published one
 //@   property C12
+
+//@ func os.OpenFile
+//@   trusted os.OpenFile returns a file exactly when it returns no error
+//@   pure
+//@   ensures (result1 == nil) == (result0 != nil)
